@@ -519,7 +519,13 @@ func reportFootnotes(context *layoutContext, footnotesHeight pr.Float) {
 
 // Create a column box including given children.
 func createColumnBox(box_ Box, containingBlock containingBlock, children []Box, width, positionY pr.Float) bo.BlockBoxITF {
-	columnBox := box_.Type().AnonymousFrom(box_, children).(bo.BlockBoxITF) // AnonymousFrom preserves concrete types
+	var columnBox bo.BlockBoxITF
+	if t := box_.Type(); t == bo.FootnoteAreaT || t == bo.MarginT || t == bo.PageT {
+		// AnonymousFrom does not support these types (columns on @footnote...)
+		columnBox = bo.BlockBoxAnonymousFrom(box_, children)
+	} else {
+		columnBox = t.AnonymousFrom(box_, children).(bo.BlockBoxITF) // AnonymousFrom preserves concrete types
+	}
 	resolvePercentagesBox(columnBox, containingBlock, 0)
 	columnBox.Box().IsColumn = true
 	columnBox.Box().Width = width
